@@ -99,7 +99,14 @@ def makeService(config, channel_db="relay.sqlite", reactor=reactor):
             # kill the loop. See #13 for details.
             log.msg("error during prune_all_apps")
             log.err(e)
-        server.dump_stats(now, rebooted=rebooted)
+        try:
+            server.dump_stats(now, rebooted=rebooted)
+        except Exception as e:
+            # likewise: the usage DB is shared with the stats collectors, so
+            # a transient error here (e.g. "database is locked") must not
+            # kill the loop either
+            log.msg("error during dump_stats")
+            log.err(e)
     TimerService(EXPIRATION_CHECK_PERIOD, expire).setServiceParent(parent)
 
     log_requests = config["blur-usage"] is None
